@@ -122,6 +122,15 @@ MISSED = {
     "C16-K": "Interrupted came a handful of times per record, never thousands",
     "C17-K": "attach always went through attach(), never attach_to_stream()",
     "C17-L": "destinations never panicked inside append",
+    # round 7
+    "C09-N": "the overflow counter was read after shutdown or a completed flush, never while the writer was stalled",
+    "C10-M": "worker flush intervals went up to an hour, never to Duration::MAX",
+    "C10-N": "keep-last fields were never optional",
+    "C13-M": "wait_for_data futures were always polled at least once",
+    "C15-M": "globals always carried data: never a zero-sized type",
+    "C15-N": "WithGlobalDimensions was only constructed, its mutators never called",
+    "C17-M": "runtime test sinks were installed and dropped by one controller thread, never for different runtimes at once",
+    "C17-N": "with_test_sink was not exercised (set_test_sink with an explicit guard was)",
 }
 
 
